@@ -1066,7 +1066,70 @@ def gen_derive(rng, mode):
     return g.finish()
 
 
+def gen_dbfan(rng, mode):
+    """Wide nodes in the table's index trees: a key K that is a proper prefix of 47..52 other keys with distinct next
+    bytes (the inner node holding K's object grows through the 4/16/48 thresholds into a 256-way node and shrinks
+    back), K written before, in between or after; K and the whole table are read back after every step, inside the
+    transaction and from snapshots."""
+    g = DBGen(rng, mode)
+    g.add(op="config", nilempty=False)
+    t = g.newtable()
+    K = rng.choice([[], [97], [0]])
+    n = rng.choice([47, 48, 49, 50, 52])
+    nexts = rng.sample(range(256), n)
+    kids = [K + [b] for b in nexts]
+
+    def obj(pk):
+        return dict(pk=pk, val=rng.randint(1, 9), hasU=False, u=[], tags=[], pfx=[], hasUp=False, upfx=[])
+
+    def look(src, ctx=""):
+        g.q(src, t, "id", "get", K, ctx=ctx)
+        g.q(src, t, "id", "all", [], ctx=ctx)
+        g.q(src, t, "id", "prefix", K, ctx=ctx)
+        g.scalar(src, t, "num", ctx=ctx)
+
+    when = rng.choice(["first", "middle", "last"])
+    cut = rng.choice([3, 15, 16, 47, 48, min(n - 1, 49)])
+    tx = g.begin([t])
+    if when == "first":
+        g.add(op="insert", tx=tx, t=t, obj=obj(K), guard=0, gsym="", w=0)
+    for k in kids[:cut]:
+        g.add(op="insert", tx=tx, t=t, obj=obj(k), guard=0, gsym="", w=0)
+    if when == "middle":
+        g.add(op="insert", tx=tx, t=t, obj=obj(K), guard=0, gsym="", w=0)
+    look(g.wtx_src(tx))
+    s1 = g.commit(tx)
+    look(g.snap_src(s1))
+    tx = g.begin([t])
+    for k in kids[cut:]:
+        g.add(op="insert", tx=tx, t=t, obj=obj(k), guard=0, gsym="", w=0)
+        if rng.random() < 0.1:
+            g.q(g.wtx_src(tx), t, "id", "get", K)
+    if when == "last":
+        g.add(op="insert", tx=tx, t=t, obj=obj(K), guard=0, gsym="", w=0)
+    look(g.wtx_src(tx))
+    if rng.random() < 0.2:
+        g.abort(tx)
+        s2 = g.snap()
+        look(g.snap_src(s2), ctx="postabort")
+        return g.finish()
+    s2 = g.commit(tx)
+    look(g.snap_src(s2))
+    look(g.snap_src(s1))
+    # shrink back below the thresholds
+    tx = g.begin([t])
+    for k in rng.sample(kids, rng.choice([1, 2, 3, n - 16, n - 3])):
+        g.add(op="delete", tx=tx, t=t, obj=obj(k), guard=0, gsym="", w=0)
+    g.add(op=rng.choice(["modify", "cas", "delete", "insert"]), tx=tx, t=t, obj=obj(K), guard=0, gsym="cur", w=0)
+    look(g.wtx_src(tx))
+    s3 = g.commit(tx)
+    look(g.snap_src(s3))
+    look(g.snap_src(s2))
+    return g.finish()
+
+
 MODES = {
+    "dbfan": gen_dbfan,
     "derive": gen_derive,
     "c01dense": gen_c01_dense, "c02dense": gen_c01_dense,
     "c06dense": gen_c06_dense,
